@@ -12,7 +12,7 @@
 (*                 the q-quantile, for "max" the (1-q)-quantile.            *)
 EXTENDS Integers, Sequences, Rat
 
-Reverse(s) == [i \in 1..Len(s) |-> s[Len(s) + 1 - i]]
+Rev(s) == [i \in 1..Len(s) |-> s[Len(s) + 1 - i]]
 
 \* asc: ascending sequence of integers, q = <<a, b>> with 0 < a < b
 NumpyQuantile(asc, q) ==
@@ -46,7 +46,7 @@ CodeSanity(data, pq, isMin) ==
 \* What the documented rule asks for
 Cutoff(data, pq, isMin) ==
     IF isMin THEN NumpyQuantile(data, pq)
-    ELSE NumpyQuantile(Reverse(data), RSub(RInt(1), pq))
+    ELSE NumpyQuantile(Rev(data), RSub(RInt(1), pq))
 
 \* metric v continues at a rung with best-first data (v included)
 \*   "yes" / "no" / "tie"  (tie: equality with the cutoff, either outcome allowed)
